@@ -67,6 +67,7 @@ struct Plan : sim::PlanBase {
   long clock_jump_step = -1;          // at this simulated step every clock jumps by clock_jump
   long clock_jump = 0;
   int tick_ms = 50;                   // simulated time per decision point (1, 5 or 50 ms): how many synchronisations fit into one second
+  bool structured = false;            // job inputs and results are nested XML with attributes (what real calculators produce), compared after removing white space
   bool bare_results = false;          // some jobs return COMPLETE without <output> / FAILED without <error> (same file size as ASSIGNED)
   long alloc_stride = 0;              // > 0: every alloc_stride-th C++ allocation inside the xtp code is a decision point
   int enum_full_below = 160;          // enumeration: rewrites of at most this many bytes are cut at EVERY byte offset
@@ -89,6 +90,13 @@ static std::string between(const std::string &s, const std::string &a, const std
   std::string t = s.substr(p + a.size(), q - p - a.size());
   size_t x = t.find_first_not_of(" \t\n\r"), y = t.find_last_not_of(" \t\n\r");
   return x == std::string::npos ? "" : t.substr(x, y - x + 1);
+}
+
+// nested XML is compared without white space (indentation depends on the nesting depth in the job file)
+static std::string strip_ws(const std::string &s) {
+  std::string o;
+  for (char ch : s) if (ch != ' ' && ch != '\t' && ch != '\n' && ch != '\r') o += ch;
+  return o;
 }
 
 // returns true iff `c` is a complete job list: <jobs> ... </jobs> with well-formed job blocks
@@ -115,11 +123,11 @@ static bool scan_jobs(const std::string &c, std::vector<JobRec> &out) {
     if (!f || id.empty()) return false;
     r.id = atol(id.c_str());
     r.tag = between(blk, "<tag>", "</tag>", &f);
-    r.input = between(blk, "<input>", "</input>", &f);
+    r.input = strip_ws(between(blk, "<input>", "</input>", &f));
     r.status = between(blk, "<status>", "</status>", &f);
     if (!f) return false;
     r.host = between(blk, "<host>", "</host>", &r.has_host);
-    r.output = between(blk, "<output>", "</output>", &r.has_output);
+    r.output = strip_ws(between(blk, "<output>", "</output>", &r.has_output));
     r.error = between(blk, "<error>", "</error>", &r.has_error);
     out.push_back(r);
     p = b + 6;
@@ -360,6 +368,7 @@ struct World : simio::Env {
       bool terminal = f.status == "COMPLETE" || f.status == "FAILED";
       bool same_res = f.output == t.output && f.error == t.error && f.has_output == t.has_output && f.has_error == t.has_error;
       if (same_so && (!terminal || same_res)) {  // T0 unchanged
+        if (plan->structured && terminal && f.has_output && f.host != hq) counters["probe.nested_output_rewritten_by_other_process"]++;
         t = f;
         continue;
       }
@@ -373,6 +382,7 @@ struct World : simio::Env {
         it->second.published = true;
         t = f;
         counters["check.publications"]++;
+        if (plan->structured && f.has_output) counters["probe.nested_output_published"]++;
         continue;
       }
       // T2 claim
@@ -533,19 +543,35 @@ class StubCalc : public xtp::ParallelXJobCalc<std::vector<xtp::Job>> {
     bool fail = w.plan->fail_rate > 0 && ((h >> 20) % 1000) < (uint64_t)(w.plan->fail_rate * 1000);
     xtp::Job::JobResult res;
     ExecRec &rr = w.ps[proc_].results[id];
+    // the result text; structured plans: a nested property with attributes, as real calculators return
+    auto set_output = [&](const std::string &text) {
+      if (!w.plan->structured) { res.setOutput(text); rr.output = text; rr.has_output = true; return; }
+      tools::Property root;
+      tools::Property &out = root.add("output", "");
+      out.add("token", text);
+      tools::Property &pair = out.add("pair", "");
+      pair.setAttribute("idA", std::to_string(id));
+      pair.setAttribute("idB", std::to_string(id + 1));
+      tools::Property &en = pair.add("energy", "0.125");
+      en.setAttribute("unit", "eV");
+      pair.add("state", "s" + std::to_string(id % 3));
+      res.setOutput(root);
+      rr.output = "<token>" + text + "</token><pairidA=\"" + std::to_string(id) + "\"idB=\"" + std::to_string(id + 1) + "\"><energyunit=\"eV\">0.125</energy><state>s" + std::to_string(id % 3) + "</state></pair>";
+      rr.has_output = true;
+    };
     if (fail) {
       res.setStatus(xtp::Job::FAILED);
       res.setError("error_of_execution_" + r.token);
       rr.status = "FAILED"; rr.error = "error_of_execution_" + r.token; rr.has_error = true;
-      if (w.plan->fail_with_output) { res.setOutput("result_of_execution_" + r.token); rr.output = "result_of_execution_" + r.token; rr.has_output = true; }
+      if (w.plan->fail_with_output) set_output("result_of_execution_" + r.token);
       w.counters["fault.job_failure"]++;
     } else if (w.plan->bare_results && ((h >> 33) % 3) == 0) {
       res.setStatus(xtp::Job::COMPLETE);   // a calculator may report success without any output
       rr.status = "COMPLETE";
     } else {
       res.setStatus(xtp::Job::COMPLETE);
-      res.setOutput("result_of_execution_" + r.token);
-      rr.status = "COMPLETE"; rr.output = "result_of_execution_" + r.token; rr.has_output = true;
+      set_output("result_of_execution_" + r.token);
+      rr.status = "COMPLETE";
     }
     rr.done = true;
     w.executing[j] = -1;
@@ -688,6 +714,7 @@ struct Jobs {
     p.fault_seed = r.next() >> 1;
     { int ticks[4] = {50, 50, 5, 1}; p.tick_ms = ticks[r.below(4)]; }
     p.bare_results = r.chance(0.3);
+    p.structured = r.chance(0.4);
     if (faulty) {
       int nk = r.chance(0.75) ? 1 : 2;
       if (r.chance(0.1)) nk = 0;
@@ -815,7 +842,7 @@ struct Jobs {
     }
     v.set("kills", ks);
     v.set("short_write", p.short_write).set("short_read", p.short_read).set("fail_rate", p.fail_rate).set("fail_with_output", p.fail_with_output)
-     .set("eval_max", p.eval_max).set("fault_seed", (long long)p.fault_seed).set("clock_jump_step", p.clock_jump_step).set("clock_jump", p.clock_jump).set("enumerate", p.enumerate).set("enum_full_below", p.enum_full_below).set("tick_ms", p.tick_ms).set("bare_results", p.bare_results).set("alloc_stride", p.alloc_stride);
+     .set("eval_max", p.eval_max).set("fault_seed", (long long)p.fault_seed).set("clock_jump_step", p.clock_jump_step).set("clock_jump", p.clock_jump).set("enumerate", p.enumerate).set("enum_full_below", p.enum_full_below).set("tick_ms", p.tick_ms).set("bare_results", p.bare_results).set("structured", p.structured).set("alloc_stride", p.alloc_stride);
     return v;
   }
   static Plan from_json(const js::Value &v) {
@@ -844,6 +871,7 @@ struct Jobs {
     p.enum_full_below = (int)v.num("enum_full_below", 160);
     p.tick_ms = (int)v.num("tick_ms", 50);
     p.bare_results = v.has("bare_results") && v.at("bare_results").b;
+    p.structured = v.has("structured") && v.at("structured").b;
     return p;
   }
 
@@ -882,6 +910,7 @@ struct Jobs {
     if (p.clock_jump_step >= 0) { Plan q = p; q.clock_jump_step = -1; out.push_back(q); }
     if (p.eval_max > 0) { Plan q = p; q.eval_max = 0; out.push_back(q); }
     if (p.bare_results) { Plan q = p; q.bare_results = false; out.push_back(q); }
+    if (p.structured) { Plan q = p; q.structured = false; out.push_back(q); }
     if (p.tick_ms != 50) { Plan q = p; q.tick_ms = 50; out.push_back(q); }
     if (p.alloc_stride > 0) { Plan q = p; q.alloc_stride = 0; out.push_back(q); q = p; q.alloc_stride = p.alloc_stride * 4; out.push_back(q); }
     bool hist = false;
@@ -914,15 +943,22 @@ struct Jobs {
       t.id = j + 1;
       t.tag = "tag" + std::to_string(j + 1);
       t.input = "in" + std::to_string(j + 1);
+      std::string input_xml = t.input, old_output_xml = "oldout" + std::to_string(j + 1);
+      if (p.structured) {
+        input_xml = "\n\t\t\t<segment id=\"" + std::to_string(j) + "\" type=\"n\">seg" + std::to_string(j) + "</segment>\n\t\t\t<regions>\n\t\t\t\t<region id=\"0\">" + std::to_string(j) +
+                    ":s1</region>\n\t\t\t</regions>\n\t\t";
+        old_output_xml = "\n\t\t\t<token>oldout" + std::to_string(j + 1) + "</token>\n\t\t\t<pair idA=\"" + std::to_string(j + 1) + "\" idB=\"" + std::to_string(j + 2) + "\">\n\t\t\t\t<energy unit=\"eV\">0.5</energy>\n\t\t\t</pair>\n\t\t";
+        t.input = strip_ws(input_xml);
+      }
       int s0 = p.init_status[(size_t)j];
       int s = s0 > 3 ? s0 - 3 : s0;
       const char *oldhost = s0 > 3 ? "oldhost:12" : "oldhost:1";  // only oldhost:1 is ever named by a restart pattern
       t.status = s == 0 ? "AVAILABLE" : s == 1 ? "COMPLETE" : s == 2 ? "FAILED" : "ASSIGNED";
-      o << "\t<job>\n\t\t<id>" << t.id << "</id>\n\t\t<tag>" << t.tag << "</tag>\n\t\t<input>" << t.input << "</input>\n\t\t<status>" << t.status << "</status>\n";
+      o << "\t<job>\n\t\t<id>" << t.id << "</id>\n\t\t<tag>" << t.tag << "</tag>\n\t\t<input>" << input_xml << "</input>\n\t\t<status>" << t.status << "</status>\n";
       if (s != 0) {
         t.host = oldhost; t.has_host = true;
         o << "\t\t<host>" << oldhost << "</host>\n\t\t<time>10:00:00</time>\n";
-        if (s == 1) { t.output = "oldout" + std::to_string(j + 1); t.has_output = true; o << "\t\t<output>" << t.output << "</output>\n"; }
+        if (s == 1) { t.output = strip_ws(old_output_xml); t.has_output = true; o << "\t\t<output>" << old_output_xml << "</output>\n"; }
         if (s == 2) { t.error = "olderr" + std::to_string(j + 1); t.has_error = true; o << "\t\t<error>" << t.error << "</error>\n"; }
       }
       o << "\t</job>\n";
